@@ -18,7 +18,7 @@ RULE = (
 REQUIRED = ["rank_checked", "left_kernel_checked", "right_kernel_checked", "conservative_true",
             "conservative_false", "consistent_true", "consistent_false", "witness_checked",
             "build_S_checked", "summary_checked", "kernel_dim_ge2_no_definite_column", "graph_tagged_by_bipartite_only", "graph_tagged_by_kind_only", "history_after_remove_species",
-            "integer_law_checked", "integer_law_with_entries_ge_3"]
+            "integer_law_checked", "integer_law_with_entries_ge_3", "svd_fallback_wide_matrix"]
 ASSUMPTIONS = [
     "float tolerances: kernel residual <= 1e-9 relative, witness residual <= 1e-6 relative, witness entries > 0",
     "positivity decisions: z3 proposes, Fraction arithmetic verifies (positive vector or Stiemke alternative)",
@@ -110,6 +110,17 @@ def check_network(ctx, net, tag="", via_graph=False):
     ctx.count("rank_checked")
     if r_real != r_exact:
         bad("rank", f"stoichiometric_rank={r_real} exact={r_exact}")
+    # ---- the nullspace fallback (used when SciPy is not installed) on S and S^T: full kernel dimension, annihilates the matrix ---- #
+    Sf0 = np.array(S, dtype=float).reshape(n_s, n_r)
+    for nm_, A_, dim_ in (("right", Sf0, n_r - r_exact), ("left", Sf0.T, n_s - r_exact)):
+        if A_.size == 0:
+            continue
+        Bk = stoich._svd_null_space(A_)
+        ctx.count("svd_fallback_checked")
+        if A_.shape[1] > A_.shape[0]:
+            ctx.count("svd_fallback_wide_matrix")
+        if Bk.shape != (A_.shape[1], dim_) or (dim_ and np.abs(A_ @ Bk).max() > 1e-9 * max(1.0, np.abs(A_).max())):
+            bad("kernel-dim", f"nullspace fallback for the {nm_} kernel returns shape {Bk.shape}, exact dimension {dim_} (matrix {A_.shape})")
     # ---- integer conservation laws: with a one-dimensional left kernel the law is unique up to scale and rational,
     # so the integer vector returned has to annihilate S exactly ---- #
     if n_s - r_exact == 1:
